@@ -178,6 +178,19 @@ def classify_while(loop, f, model, cg, sentinel_ok=None):
     t = test
     if isinstance(t, ast.BinOp) and isinstance(t.op, ast.BitAnd):
         t = t.left
+    if isinstance(t, ast.Name) and t.id in assigned:
+        # the tested octet is kept in a local that every iteration re-reads from buf[idx]:
+        #     byte = data[offset] ; while byte & 0x80: ... offset += 1 ; byte = data[offset]
+        loads = [a for a in assigned[t.id] if isinstance(a, ast.Assign)]
+        if loads and len(loads) == len(assigned[t.id]) and all(a in top and isinstance(a.value, ast.Subscript) for a in loads) \
+                and len({ast.unparse(a.value) for a in loads}) == 1:
+            sub = loads[0].value
+            if isinstance(sub.slice, ast.Name) and isinstance(sub.value, ast.Name):
+                adv = [s for s in top if isinstance(s, ast.AugAssign) and isinstance(s.op, ast.Add) and _is_pos_const(s.value)
+                       and isinstance(s.target, ast.Name) and s.target.id == sub.slice.id]
+                # the index is advanced before the re-read
+                if adv and top.index(adv[-1]) < top.index(loads[-1]):
+                    t = sub
     if isinstance(t, ast.Subscript) and isinstance(t.slice, ast.Name) and isinstance(t.value, ast.Name):
         idx = t.slice.id
         buf = t.value.id
@@ -189,19 +202,28 @@ def classify_while(loop, f, model, cg, sentinel_ok=None):
         return 'T-IDX', False, 'index %s is not advanced by a positive constant on every iteration' % idx
 
     # ---------------- T-BOUND   while offset < end:  x, offset = g(data, offset)
-    if isinstance(test, ast.Compare) and len(test.ops) == 1 and isinstance(test.ops[0], (ast.Lt, ast.LtE)) \
-            and isinstance(test.left, ast.Name):
-        v = test.left.id
-        bound = test.comparators[0]
+    tb_left, tb_bound = None, None
+    if isinstance(test, ast.Compare) and len(test.ops) == 1:
+        if isinstance(test.ops[0], (ast.Lt, ast.LtE)) and isinstance(test.left, ast.Name):
+            tb_left, tb_bound = test.left, test.comparators[0]
+        elif isinstance(test.ops[0], (ast.Gt, ast.GtE)) and isinstance(test.comparators[0], ast.Name):
+            tb_left, tb_bound = test.comparators[0], test.left
+    tlv_aliases = decode_aliases(f)
+    if tb_left is not None and not any(isinstance(s, ast.Assign) and is_type_decode_call(s.value, tlv_aliases) for s in top):
+        v = tb_left.id
+        bound = tb_bound
         bound_fixed = isinstance(bound, ast.Constant) or (isinstance(bound, ast.Name) and bound.id not in assigned)
         rebinds = [s for s in top if isinstance(s, ast.Assign) and v in [x for tg in s.targets for x in flow.target_names(tg)]]
         if rebinds and bound_fixed and len(assigned.get(v, [])) == len(rebinds) and not _has_continue(body):
             ok = True
             why = ''
+            unresolved = False
             for s in rebinds:
                 if isinstance(s.value, ast.Call):
                     tg = cg.resolve_call(f, s.value)
                     passes = any(isinstance(a, ast.Name) and a.id == v for a in s.value.args)
+                    if not tg:
+                        unresolved = True
                     if not (tg and passes and all(_returns_offset_plus(g, model) for g in tg)):
                         ok = False
                         why = 'callee %s does not return its offset argument increased by >= 1 on every path' % ast.unparse(s.value.func)
@@ -210,7 +232,8 @@ def classify_while(loop, f, model, cg, sentinel_ok=None):
                     why = '%s re-bound from a non-call' % v
             if ok:
                 return 'T-BOUND', True, '%s is re-bound from a callee that returns offset + k, k >= 1' % v
-            return 'T-BOUND', False, why
+            if not unresolved:
+                return 'T-BOUND', False, why
 
     # ---------------- T-TLV: element decode in the loop body with checked sentinel
     aliases = decode_aliases(f)
@@ -241,9 +264,14 @@ def classify_while(loop, f, model, cg, sentinel_ok=None):
             # `if not flag: break`, also as one disjunct of a merged exit test (`if out_of_data or not flag: break`)
             exits = [s for s in top if isinstance(s, ast.If) and any(isinstance(b, (ast.Break, ast.Return)) for b in s.body)
                      and [(flag, False)] in sem.dnf(sem.cond_formula(s.test))]
-            if not exits:
-                continue
             sets = [a for a in assigned.get(flag, []) if a is not fl]
+            if not exits:
+                # the retry structure is there (a progress flag reset every round and set on success) but no round ends the
+                # loop when nothing was decoded
+                if sets and all(isinstance(a, ast.Assign) and isinstance(a.value, ast.Constant) and a.value.value is True for a in sets) \
+                        and not any(isinstance(n, ast.Name) and n.id == flag and isinstance(n.ctx, ast.Load) for s in body for n in ast.walk(s)):
+                    return 'T-RETRY', False, 'the loop is not left when a whole pass decoded nothing (progress flag %s is never tested)' % flag
+                continue
             good = bool(sets)
             und = None
             for a in sets:
